@@ -12,6 +12,7 @@ import (
 	"github.com/google/uuid"
 	"github.com/internetarchive/Zeno/internal/pkg/config"
 	"github.com/internetarchive/Zeno/internal/pkg/source/lq/sqlc_model"
+	"github.com/internetarchive/Zeno/internal/pkg/verifhook"
 )
 
 type LQClient struct {
@@ -70,6 +71,7 @@ func (c *LQClient) Get(ctx context.Context, limit int) ([]sqlc_model.Url, error)
 	if err = tx.Commit(); err != nil {
 		return nil, err
 	}
+	verifhook.At("lq.claim", freshUrls)
 
 	return freshUrls, nil
 }
@@ -106,6 +108,7 @@ func (c *LQClient) Add(ctx context.Context, urls []sqlc_model.Url, bypassSeenche
 	if err = tx.Commit(); err != nil {
 		return err
 	}
+	verifhook.At("lq.add", urls)
 
 	return nil
 }
@@ -130,5 +133,6 @@ func (c *LQClient) Delete(ctx context.Context, urls []sqlc_model.Url, bypassSeen
 	if err = tx.Commit(); err != nil {
 		return err
 	}
+	verifhook.At("lq.delete", urls)
 	return nil
 }
